@@ -1,9 +1,11 @@
 """Forcing behaviours of CodeCache.tla on real processes (cache_harness) and abstracting the real
 file system back to the specification's state."""
+import hashlib
 import importlib.util
 import json
 import os
 import py_compile
+import re
 import sys
 import time
 
@@ -25,18 +27,19 @@ class Sources:
         for d in ch.DECLS:
             s, out = ch.generated_source(refs, d)
             self.src[d] = s
-            for line in s.splitlines():
-                if line.startswith("BISTURI_PACKET_COOKIE"):
-                    self.cookie[d] = line.split("'")[1]
+            # however the library writes the identification of a module into it (an assignment, a comment, ...)
+            self.cookie[d] = cookie_of_text(s) or ("sha1:" + hashlib.sha1(s.encode()).hexdigest())
         self.by_cookie = {v: k for k, v in self.cookie.items()}
 
     def parts(self, d):
+        """(imports, cookie line, functions) of the complete module, for the torn variants in the LEGACY layout"""
         s = self.src[d]
         lines = s.splitlines(True)
-        ci = [i for i, l in enumerate(lines) if l.startswith("BISTURI_PACKET_COOKIE")][0]
-        cookie = lines[ci]
-        rest = lines[:ci] + lines[ci + 1:]
-        pi = [i for i, l in enumerate(rest) if l.startswith("def pack_impl")][0]
+        cis = [i for i, l in enumerate(lines) if COOKIE_NAME in l]
+        cookie = lines[cis[0]] if cis else ""
+        rest = [l for i, l in enumerate(lines) if not (cis and i == cis[0])]
+        pis = [i for i, l in enumerate(rest) if l.startswith("def ")]
+        pi = pis[0] if pis else len(rest)
         return "".join(rest[:pi]), cookie, "".join(rest[pi:])
 
     def variant(self, d, shape):
@@ -54,6 +57,15 @@ class Sources:
         raise ValueError(shape)
 
 
+COOKIE_NAME = "BISTURI_PACKET_COOKIE"
+_COOKIE_RE = re.compile(COOKIE_NAME + r"\W*([0-9A-Za-z]+)")
+
+
+def cookie_of_text(text):
+    m = _COOKIE_RE.search(text)
+    return m.group(1) if m else None
+
+
 def classify(text, sources):
     """real file content -> (owner, shape) of the specification"""
     if text == "":
@@ -67,7 +79,9 @@ def classify(text, sources):
         exec(code, ns)
     except Exception:
         return None, "broken"
-    cookie = ns.get("BISTURI_PACKET_COOKIE")
+    cookie = ns.get(COOKIE_NAME) or cookie_of_text(text)
+    if cookie is None and text in sources.src.values():
+        cookie = "sha1:" + hashlib.sha1(text.encode()).hexdigest()
     owner = sources.by_cookie.get(cookie)
     if cookie is None:
         return None, "nocookie"
